@@ -30,6 +30,8 @@ func dispatch(cmd string, args []string) int {
 		return cmdConc(cmd, args)
 	case "C12", "C13":
 		return cmdDkg(cmd, args)
+	case "C20":
+		return cmdWire(args)
 	case "C14":
 		return cmdClusterDuties(args)
 	case "C16", "C17":
